@@ -11,7 +11,13 @@ from harness.impl import c03doc as I
 IMPORTS = "From Ford Require Import Base.Str Doc.Meta Doc.Admon Corr.C03doc."
 PROPS_FILE = "theories/Props/C03doc.v"
 BUILD_TARGETS = ["theories/Corr/C03doc.vo", "theories/Props/C03doc.vo"]
-THEOREMS = []
+THEOREMS = ["C03_meta_split", "C03_meta_shape", "C03_meta_no_header", "C03_meta_header", "C03_meta_header_fenced",
+            "C03_read_metadata_split", "C03_read_metadata_oneline",
+            "C03_admon_words", "C03_admon_total", "C03_admon_words_partial", "C03_refuted_pretext",
+            "C03_refuted_pretext_witness",
+            "C03_admon_errors", "C03_admon_end_without_start", "C03_admon_end_type_mismatch",
+            "C03_admon_indent_step", "C03_admon_indent", "C03_admon_indent_exact_partial", "C03_refuted_pullin",
+            "C03_refuted_pullin_witness"]
 
 ADMON_REGION_KEYS = {1: "doc-text-before-note-dropped"}
 
@@ -176,9 +182,105 @@ def part_meta(chk):
     chk.extra["meta"] = {"cases": len(cases), "entity_fields": fields}
 
 
+# ---------------------------------------------------------------- C. end-to-end: tracer words in entity.doc
+import re
+
+TW = re.compile(r"tw\d+a\d+")
+MV = re.compile(r"mv\d+a\d+")
+
+
+def is_subsequence(small, big):
+    it = iter(big)
+    return all(x in it for x in small)
+
+
+def check_entity(d, got):
+    """Sound checks on one entity; returns a list of (what, detail)."""
+    probs = []
+    words = TW.findall(got["text"])
+    if words != d["words"]:
+        probs.append(("words", {"expected": d["words"], "visible": words}))
+    if MV.search(got["text"]):
+        probs.append(("metadata-shown", {"visible": MV.findall(got["text"])}))
+    for k, v in d["meta"].items():
+        if got["meta"].get(k) != v:
+            probs.append(("metadata-not-set", {"key": k, "expected": v, "got": got["meta"].get(k)}))
+    if got["summary"]:
+        import bs4
+        sw = TW.findall(bs4.BeautifulSoup(got["summary"], "html.parser").get_text())
+        if not is_subsequence(sw, d["words"]):
+            probs.append(("summary-foreign-words", {"summary": sw}))
+    return probs
+
+
+def part_e2e(chk):
+    rng = chk.rng
+    quick = chk.tier == "quick"
+    nproj = 150 if quick else 3000
+    kinds, nent, nmiss, known_hits = {}, 0, 0, 0
+    for pi in range(nproj):
+        knobs = {"pretext": True} if pi % 10 == 9 else {}
+        files, expected = G.gen_doc_project(rng, knobs)
+        kind, out = I.run_doc_project(files)
+        if kind == "err":
+            chk.count(("e2e-err", pi), nontrivial=True)
+            chk.violation("failing-input", {"what": "Project/correlate/markdown raised on a well-formed documented "
+                                            "project", "part": "e2e", "files": files, "error": out}, True)
+            continue
+        for key, d in expected.items():
+            nent += 1
+            for k in d["kinds"]:
+                kinds[k] = kinds.get(k, 0) + 1
+            chk.count(("e2e", tuple(d["lines"])), nontrivial=len(d["lines"]) > 1,
+                      sample={"entity": list(key), "doc_lines": d["lines"]} if "box:next" in d["kinds"] else None)
+            got = out.get(key)
+            if got is None:
+                nmiss += 1      # the reader/attach half (lead's check) decides about missing entities
+                continue
+            probs = check_entity(d, got)
+            if not probs:
+                continue
+            chk.disagreements += 1
+            if d["region"] and all(p[0] == "words" for p in probs) and chk.known(d["region"], True):
+                known_hits += 1
+                continue
+            chk.violation("failing-input",
+                          {"what": "rendered documentation of an entity does not carry its comment's words exactly "
+                                   "once and in order / metadata not split off", "part": "e2e", "entity": list(key),
+                           "doc_lines": d["lines"], "problems": probs, "html": got["doc"], "files": files}, True)
+    # unmatched end markers must raise, not drop text silently
+    nerr = 0
+    for _ in range(6 if quick else 60):
+        body, why = G.gen_error_doc(rng)
+        files = {"src/e.f90": "module me\n" + "".join(f"  !! {l}\n" for l in body) + "end module me\n"}
+        kind, out = I.run_doc_project(files)
+        nerr += 1
+        chk.count(("e2e-error-doc", tuple(body)), nontrivial=True)
+        if kind != "err" or "ValueError" not in out:
+            chk.violation("failing-input", {"what": "an unmatched end marker (%s) did not raise" % why, "part": "e2e",
+                                            "files": files, "result": str(out)[:500]}, True)
+    chk.extra["e2e"] = {"projects": nproj, "entities": nent, "entities_not_found": nmiss, "block_kinds": kinds,
+                        "known_region_entities": known_hits, "error_docs": nerr}
+
+
+# ---------------------------------------------------------------- D. recorded findings: replay the witnesses
+def part_findings(chk):
+    r = I.run_admon(["alpha beta @note gamma"])
+    still = r[0] == "ok" and "alpha" not in " ".join(r[1])
+    chk.known("doc-text-before-note-dropped", still)
+    r1 = I.run_admon(["@note", "a", "@endnote", "b"])
+    r2 = I.run_admon(["@note a", "@warning b"])
+    still = (r1 == ("ok", ["@note Note", "    a", "    b"])
+             or r2 == ("ok", ["@note Note", "     a", "    @note Warning", "     b"]))
+    chk.known("doc-line-after-box-indented", still)
+    chk.extra["findings_replayed"] = {"pretext": r, "pullin": r1, "consecutive": r2}
+
+
 def run_part(chk):
     part_admon(chk)
     part_meta(chk)
+    part_e2e(chk)
+    part_findings(chk)
 
 
 def replay(chk, rep):
@@ -204,12 +306,45 @@ def replay(chk, rep):
         out = chk.coq_judge(IMPORTS, "nat * list str * list str * mdict * list str", "judge_meta", [term], defs=defs)
         print("judge code:", (out or {}).get(0, 0))
         return 1 if out else 0
+    if part == "e2e":
+        kind, out = I.run_doc_project(rep["files"])
+        if kind == "err":
+            print("impl raised:", out)
+            return 0 if "did not raise" in rep.get("what", "") else 1
+        if "did not raise" in rep.get("what", ""):
+            print("still no exception")
+            return 1
+        key = tuple(rep["entity"])
+        got = out.get(key)
+        print("entity:", key, "\nvisible text:", got and got["text"])
+        if got is None:
+            return 1
+        words = TW.findall(got["text"])
+        exp = TW.findall("\n".join(l for l in rep["doc_lines"] if not MV.search(l)))
+        print("expected:", exp, "\nvisible :", words)
+        return 0 if words == exp and not MV.search(got["text"]) else 1
     print("nothing to replay for part", part)
     return 1
 
 
-LEVEL_NOTE = "placeholder"
-TRUSTED_BASE = []
-RULE = ""
-CHECKER_CMD = ""
-ASSUMPTIONS = []
+LEVEL_NOTE = ("Coq theorems about the models of meta_preprocessor/read_metadata (Doc/Meta.v) and of the two passes of "
+              "AdmonitionPreprocessor (Doc/Admon.v) for unbounded line lists; models tied to ford.utils / "
+              "ford.md_admonition by differential runs; python-markdown, dedent and the summary extraction covered by "
+              "the end-to-end tracer-word search only")
+TRUSTED_BASE = ["Coq 8.16.1 kernel (+ vm_compute for case evaluation)",
+                "hand-written models Doc/Meta.v, Doc/Admon.v (regex recognisers written from the pattern text of "
+                "META_RE, META_MORE_RE, BEGIN_RE, END_RE, ADMONITION_RE, md_admonition.END_RE)",
+                "harness generators/adapters (harness/gen/c03doc.py, harness/impl/c03doc.py)",
+                "python-markdown 3.4 block parsing, textwrap.dedent, bs4 text extraction (end-to-end search only)",
+                "7-bit ASCII lines without embedded newline"]
+RULE = ("admonition: bounded-exhaustive line-class sequences (core alphabet deep, wide alphabet shallow) + sampled longer "
+        "sequences + random and structured bodies; metadata: bounded-exhaustive header/body line classes + random; "
+        "end-to-end: generated documented projects with a unique tracer word sequence per entity. distinct = distinct "
+        "line list (per part); non-trivial = contains a marker / is non-empty / has more than one doc line")
+CHECKER_CMD = "make theories/Props/C03doc.vo && coqc theories/Props/C03doc.v (Print Assumptions)"
+ASSUMPTIONS = ["Python re semantics of search/match for the six patterns as modelled (leftmost match, greedy \\s*)",
+               "the word-level specification treats `@type`/`@endtype` as whole whitespace-delimited words; lines where "
+               "markers are glued to other text or repeated (admon region 2) are outside the quantifier",
+               "a first doc line that looks like `key: value` is metadata by FORD's documented syntax even when the key is "
+               "unknown (dropped with a warning); the generators emit known keys only",
+               "entities missing from the project are the reader/attach half's business (not flagged here)"]
